@@ -27,11 +27,13 @@ type c12Script struct {
 	X       string      `json:"x,omitempty"`
 	Y       string      `json:"y,omitempty"`
 	Note    string      `json:"note,omitempty"`
+	// Before: coordinate pairs checked earlier in the SAME two buffers (CheckOnCurve only)
+	Before [][2]string `json:"before,omitempty"`
 }
 
 type c12 struct{}
 
-func init() { core.Register(c12{}) }
+func init()            { core.Register(c12{}) }
 func (c12) ID() string { return "C12" }
 
 var c12Bound = []*big.Int{big.NewInt(0), big.NewInt(1), big.NewInt(2), nMinus2, nMinus1, ref.SM2N,
@@ -57,7 +59,7 @@ func (c12) Meta() core.Meta {
 			"oracle": "sm2ref (range predicates on math/big, affine [d]G, curve equation)"},
 		Assumptions: []string{"sm2ref is correct (anchors)", "TestPrivateKey is judged on 32-byte strings only (as stated)", "DerivePublic may return an error for any input it does not want (statement: [d]G or an error), but must not panic or return a wrong point",
 			"CheckOnCurve must return false for coordinates that are not exactly 32 bytes"},
-		FaultKinds: []string{"short", "stall", "cand:0", "cand:n-1", "cand:>=n", "wire:bitflip", "wire:+n", "wire:+p", "wire:swap", "wire:truncate", "wire:extend", "wire:offcurve"},
+		FaultKinds: []string{"short", "stall", "cand:0", "cand:n-1", "cand:>=n", "wire:bitflip", "wire:+n", "wire:+p", "wire:swap", "wire:truncate", "wire:extend", "wire:offcurve", "reused-receive-buffers"},
 		ProbeNames: []string{"gen:rejected>=1", "gen:rejected>=3", "gen:cand=0", "priv:boundary", "curve:x>=p", "curve:offcurve", "curve:oncurve", "derive:error-ok"},
 		StepUnit:   "reader calls + library calls",
 	}
@@ -231,7 +233,14 @@ func (c12) Generate(idx int, r *core.Rand, tier string) core.Script {
 	if w.Chance(3, 4) {
 		x, y, note = c12MutateCoord(w, x, y)
 	}
-	return &c12Script{Op: "CheckOnCurve", X: hx(x), Y: hx(y), Note: note}
+	sc := &c12Script{Op: "CheckOnCurve", X: hx(x), Y: hx(y), Note: note}
+	if w.Chance(1, 3) { // a validator that reuses its receive buffers
+		for i := w.Range(1, 2); i > 0; i-- {
+			q := ref.MulG(randScalar(w))
+			sc.Before = append(sc.Before, [2]string{hx(ref.Pad32(q.X)), hx(ref.Pad32(q.Y))})
+		}
+	}
+	return sc
 }
 
 func (c12) Decode(raw json.RawMessage) (core.Script, error) {
@@ -267,6 +276,7 @@ func (c12) Execute(sc core.Script, keep bool) *core.Result {
 		res.Steps = log.Steps()
 		res.LogLines = log.Lines
 	}()
+	sm2Canon()
 	viol := func(class, role, param, detail string) {
 		res.Violation = &core.Violation{Class: class, Op: s.Op, Role: role, Param: param, Detail: detail}
 		log.Add("VIOLATION %s %s %s: %s", class, role, param, detail)
@@ -399,7 +409,25 @@ func (c12) Execute(sc core.Script, keep bool) *core.Result {
 		default:
 			res.Probes["curve:oncurve"]++
 		}
-		res.Nontrivial = cl != "oncurve" || (s.Note != "" && s.Note != "none")
+		res.Nontrivial = cl != "oncurve" || (s.Note != "" && s.Note != "none") || len(s.Before) > 0
+		bx, by := make([]byte, 0, 64), make([]byte, 0, 64)
+		for bi, b := range s.Before {
+			res.Faults["reused-receive-buffers"]++
+			bx, by = append(bx[:0], unhx(b[0])...), append(by[:0], unhx(b[1])...)
+			w0 := len(bx) == 32 && len(by) == 32 && ref.OnCurve(ref.Int(bx), ref.Int(by))
+			var g0 bool
+			p0, _, _, _ := core.Catch(func() { g0 = sm2.CheckOnCurve(bx, by) })
+			log.Add("before#%d want=%v got=%v panic=%v", bi, w0, g0, p0)
+			if p0 || g0 != w0 {
+				viol("wrong-verdict-in-history", "public-key", "earlier-check", fmt.Sprintf("earlier CheckOnCurve(%x,%x): want %v got %v panic %v", bx, by, w0, g0, p0))
+				return res
+			}
+		}
+		if len(s.Before) > 0 {
+			bx, by = append(bx[:0], x...), append(by[:0], y...)
+			x, y = bx, by
+			cl += "/after-earlier-checks-in-same-buffers"
+		}
 		var got bool
 		p, txt, _, _ := core.Catch(func() { got = sm2.CheckOnCurve(x, y) })
 		log.Add("CheckOnCurve(%s,%s) class=%s want=%v got=%v panic=%v", core.Hex8(x), core.Hex8(y), cl, want, got, p)
@@ -425,6 +453,14 @@ func (c12) Shrinks(sc core.Script) []core.Script {
 		return &c
 	}
 	var out []core.Script
+	if len(s.Before) > 0 {
+		c := cp()
+		c.Before = nil
+		out = append(out, c)
+		c = cp()
+		c.Before = c.Before[1:]
+		out = append(out, c)
+	}
 	if len(s.Program) > 0 {
 		c := cp()
 		c.Program = nil
